@@ -362,6 +362,20 @@ def signature(msg, cls, new_msgs, before=None):
         if msg.get('rerun') is False:
             sig['rerun'] = False
         return sig
+    if msg['kind'] == 'on_action_complete' and 'task-state-changed' in cls and before:
+        # the repeated result belongs to a task that completed on the first delivery and was RE-OPENED since (a join
+        # put back to WAITING by Task.defer because an upstream task was rerun): the stale result completes the
+        # WAITING task without running it
+        tid = None
+        for w in before.get('wfs', []):
+            if msg.get('wf_action') and w['ord'] == msg.get('action_ex_id'):
+                tid = w.get('parent_task')
+        for a in before.get('actions', []):
+            if not msg.get('wf_action') and a['ord'] == msg.get('action_ex_id'):
+                tid = a.get('task')
+        st = [t['state'] for t in before.get('tasks', []) if t['ord'] == tid]
+        if st and st[0] == 'WAITING':
+            return {'kind': 'stale-result-completes-reopened-join', 'wf_action': bool(msg.get('wf_action'))}
     return {'kind': 'dup-not-noop', 'message': msg['kind'], 'stale_read': bool(msg.get('stale_read')),
             'first_run': msg.get('first_run'), 'wf_action': msg.get('wf_action'),
             'changed': cls, 'sent': sorted(set(new_msgs))}
